@@ -1,0 +1,115 @@
+//go:build verif
+
+package geom
+
+// Contracts for the DE-9IM layer (C02): pattern matching is entry-wise by the
+// documented table, the named predicates are the OGC combinations of matrix
+// entries, and Relate's closed forms for an empty operand.
+
+//@ prop C02
+
+// F=70 0=48 1=49 2=50 T=84 *=42
+//@ pred MChar(c) = c == 70 || c == 48 || c == 49 || c == 50
+//@ pred PChar(c) = MChar(c) || c == 84 || c == 42
+//@ pred EntryOK(m, p) = (m == 70 && (p == 70 || p == 42)) || (m != 70 && (p == m || p == 84 || p == 42))
+//@ pred MatOK(s) = len(s) == 9 && MChar(s[0]) && MChar(s[1]) && MChar(s[2]) && MChar(s[3]) && MChar(s[4]) && MChar(s[5]) && MChar(s[6]) && MChar(s[7]) && MChar(s[8])
+//@ pred PatOK(s) = len(s) == 9 && PChar(s[0]) && PChar(s[1]) && PChar(s[2]) && PChar(s[3]) && PChar(s[4]) && PChar(s[5]) && PChar(s[6]) && PChar(s[7]) && PChar(s[8])
+//@ pred Matches(m, p) = EntryOK(m[0], p[0]) && EntryOK(m[1], p[1]) && EntryOK(m[2], p[2]) && EntryOK(m[3], p[3]) && EntryOK(m[4], p[4]) && EntryOK(m[5], p[5]) && EntryOK(m[6], p[6]) && EntryOK(m[7], p[7]) && EntryOK(m[8], p[8])
+
+//@ func RelateMatches
+//@   ensures len(intersectionMatrix) != 9 || len(intersectionMatrixPattern) != 9 ==> result1 != nil
+//@   ensures MatOK(intersectionMatrix) && PatOK(intersectionMatrixPattern) ==> result1 == nil && (result0 <==> Matches(intersectionMatrix, intersectionMatrixPattern))
+//@   loop 0 invariant 0 <= iterpos && iterpos <= 9 && len(mat) == 9 && len(pat) == 9 && same(mat, intersectionMatrix) && same(pat, intersectionMatrixPattern)
+//@   loop 0 invariant MatOK(mat) && PatOK(pat) ==> (forall k :: 0 <= k && k < iterpos ==> EntryOK(mat[k], pat[k]))
+
+// Relate: the overlay branch is outside the contracts (C01): the overlay
+// constructor and the matrix extraction are trusted to return a well-formed
+// matrix.  The closed forms for an empty operand are proved.
+//@ func newDCELFromGeometries
+//@   trusted
+//@   ensures result != nil
+//@ func (*doublyConnectedEdgeList).extractIntersectionMatrix
+//@   trusted
+//@   ensures MChar(result[0]) && MChar(result[1]) && MChar(result[2]) && MChar(result[3]) && MChar(result[4]) && MChar(result[5]) && MChar(result[6]) && MChar(result[7]) && MChar(result[8])
+
+//@ prop C02,C16,C20,C10
+//@ func Geometry.Boundary
+//@   defines same(result, ufn(gboundary, Geometry, g))
+//@ prop C02
+
+// entry of the exterior row/column against the boundary of the non-empty operand
+//@ pred BndChar(g) = ite(ufn(gdim, int, g) == 0, 70, ite(ufn(gdim, int, g) == 1, ite(GEmpty(ufn(gboundary, Geometry, g)), 70, 48), 49))
+//@ func Relate
+//@   ensures result1 == nil && MatOK(result0)
+//@   ensures GEmpty(a) && GEmpty(b) ==> F(result0, 0) && F(result0, 1) && F(result0, 2) && F(result0, 3) && F(result0, 4) && F(result0, 5) && F(result0, 6) && F(result0, 7) && result0[8] == 50
+//@   ensures GEmpty(a) && !GEmpty(b) && 0 <= ufn(gdim, int, b) && ufn(gdim, int, b) <= 2 ==> F(result0, 0) && F(result0, 1) && F(result0, 2) && F(result0, 3) && F(result0, 4) && F(result0, 5) && result0[6] == 48 + ufn(gdim, int, b) && result0[7] == BndChar(b) && result0[8] == 50
+//@   ensures !GEmpty(a) && GEmpty(b) && 0 <= ufn(gdim, int, a) && ufn(gdim, int, a) <= 2 ==> F(result0, 0) && F(result0, 1) && F(result0, 3) && F(result0, 4) && F(result0, 6) && F(result0, 7) && result0[2] == 48 + ufn(gdim, int, a) && result0[5] == BndChar(a) && result0[8] == 50
+//@   defines same(result0, ufn(relate, string, a, b)) && result1 == ufn(relateerr, error, a, b)
+
+//@ pred RM(a, b) = ufn(relate, string, a, b)
+//@ pred RE(a, b) = ufn(relateerr, error, a, b)
+
+//@ func relateMatchesAnyPattern
+//@   requires forall j :: 0 <= j && j < len(patterns) ==> PatOK(patterns[j])
+//@   ensures RE(a, b) != nil ==> result1 != nil
+//@   ensures RE(a, b) == nil ==> MatOK(RM(a, b))
+//@   ensures RE(a, b) == nil ==> result1 == nil && (result0 <==> (exists j :: 0 <= j && j < len(patterns) && Matches(RM(a, b), patterns[j])))
+//@   ensures RE(a, b) == nil && len(patterns) == 1 ==> (result0 <==> Matches(RM(a, b), patterns[0]))
+//@   ensures RE(a, b) == nil && len(patterns) == 3 ==> (result0 <==> Matches(RM(a, b), patterns[0]) || Matches(RM(a, b), patterns[1]) || Matches(RM(a, b), patterns[2]))
+//@   ensures RE(a, b) == nil && len(patterns) == 4 ==> (result0 <==> Matches(RM(a, b), patterns[0]) || Matches(RM(a, b), patterns[1]) || Matches(RM(a, b), patterns[2]) || Matches(RM(a, b), patterns[3]))
+//@   loop 0 invariant -1 <= rangeindex && rangeindex < len(patterns) && err == nil && same(mat, RM(a, b)) && MatOK(mat)
+//@   loop 0 invariant forall j :: 0 <= j && j <= rangeindex ==> !Matches(mat, patterns[j])
+
+// the named predicates as combinations of matrix entries (OGC 06-103r4 6.1.15.3 / JTS)
+//@ pred T(m, k) = m[k] != 70
+//@ pred F(m, k) = m[k] == 70
+
+//@ func Disjoint
+//@   ensures RE(a, b) == nil ==> result1 == nil && (result0 <==> F(RM(a, b), 0) && F(RM(a, b), 1) && F(RM(a, b), 3) && F(RM(a, b), 4))
+//@ func Touches
+//@   ensures RE(a, b) == nil ==> result1 == nil && (result0 <==> F(RM(a, b), 0) && (T(RM(a, b), 1) || T(RM(a, b), 3) || T(RM(a, b), 4)))
+//@ func Contains
+//@   ensures RE(a, b) == nil ==> result1 == nil && (result0 <==> T(RM(a, b), 0) && F(RM(a, b), 6) && F(RM(a, b), 7))
+//@ func Covers
+//@   ensures RE(a, b) == nil ==> result1 == nil && (result0 <==> (T(RM(a, b), 0) || T(RM(a, b), 1) || T(RM(a, b), 3) || T(RM(a, b), 4)) && F(RM(a, b), 6) && F(RM(a, b), 7))
+//@ func Within
+//@   ensures RE(a, b) == nil ==> result1 == nil && (result0 <==> T(RM(a, b), 0) && F(RM(a, b), 2) && F(RM(a, b), 5))
+//@ func CoveredBy
+//@   ensures RE(a, b) == nil ==> result1 == nil && (result0 <==> (T(RM(a, b), 0) || T(RM(a, b), 1) || T(RM(a, b), 3) || T(RM(a, b), 4)) && F(RM(a, b), 2) && F(RM(a, b), 5))
+//@ func Equals
+//@   ensures !(GEmpty(a) && GEmpty(b)) && RE(a, b) == nil ==> result1 == nil && (result0 <==> T(RM(a, b), 0) && F(RM(a, b), 2) && F(RM(a, b), 5) && F(RM(a, b), 6) && F(RM(a, b), 7))
+//@   ensures GEmpty(a) && GEmpty(b) ==> result0 && result1 == nil
+
+// dimension-dependent predicates: the dimension is named (A-det) and, for the
+// six concrete types, given by the type
+//@ pred GD(g) = ufn(gdim, int, g)
+//@ prop C02,C16,C20,C10
+//@ func Geometry.Dimension
+//@   ensures (g.gtype == 1 || g.gtype == 4) ==> result == 0
+//@   ensures (g.gtype == 2 || g.gtype == 5) ==> result == 1
+//@   ensures (g.gtype == 3 || g.gtype == 6) ==> result == 2
+//@   defines result == ufn(gdim, int, g)
+//@ prop C02
+//@ func Crosses
+//@   ensures RE(a, b) == nil && GD(a) < GD(b) ==> result1 == nil && (result0 <==> T(RM(a, b), 0) && T(RM(a, b), 2))
+//@   ensures RE(a, b) == nil && GD(a) > GD(b) ==> result1 == nil && (result0 <==> T(RM(a, b), 0) && T(RM(a, b), 6))
+//@   ensures RE(a, b) == nil && GD(a) == 1 && GD(b) == 1 ==> result1 == nil && (result0 <==> RM(a, b)[0] == 48)
+//@   ensures GD(a) == GD(b) && GD(a) != 1 ==> !result0 && result1 == nil
+//@ func Overlaps
+//@   ensures RE(a, b) == nil && ((GD(a) == 0 && GD(b) == 0) || (GD(a) == 2 && GD(b) == 2)) ==> result1 == nil && (result0 <==> T(RM(a, b), 0) && T(RM(a, b), 2) && T(RM(a, b), 6))
+//@   ensures RE(a, b) == nil && GD(a) == 1 && GD(b) == 1 ==> result1 == nil && (result0 <==> RM(a, b)[0] == 49 && T(RM(a, b), 2) && T(RM(a, b), 6))
+//@   ensures GD(a) != GD(b) ==> !result0 && result1 == nil
+
+// ---- the 3x3 matrix ----
+//@ func (*matrix).transpose
+//@   modifies m
+//@   ensures forall a, b :: 0 <= a && a < 3 && 0 <= b && b < 3 ==> m[3*b+a] == old(m[3*a+b])
+//@   ensures m[0] == old(m[0]) && m[1] == old(m[3]) && m[2] == old(m[6]) && m[3] == old(m[1]) && m[4] == old(m[4]) && m[5] == old(m[7]) && m[6] == old(m[2]) && m[7] == old(m[5]) && m[8] == old(m[8])
+//@   loop 0 invariant -1 <= rangeindex && rangeindex < 3 && len(complit$0) == 3 && complit$0[0] == 0 && complit$0[1] == 1 && complit$0[2] == 2 && m != nil
+//@   loop 0 invariant forall k :: 0 <= k && k < 9 ==> cp[k] == old(m[k])
+//@   loop 0 invariant forall a, b :: 0 <= a && a <= rangeindex && 0 <= b && b < 3 ==> m[3*b+a] == old(m[3*a+b])
+//@   loop 1 invariant 0 <= rangeindex$0 && rangeindex$0 < 3 && len(complit$0) == 3 && complit$0[0] == 0 && complit$0[1] == 1 && complit$0[2] == 2 && m != nil && locA == rangeindex$0
+//@   loop 1 invariant -1 <= rangeindex && rangeindex < 3 && len(complit$1) == 3 && complit$1[0] == 0 && complit$1[1] == 1 && complit$1[2] == 2
+//@   loop 1 invariant forall k :: 0 <= k && k < 9 ==> cp[k] == old(m[k])
+//@   loop 1 invariant forall a, b :: 0 <= a && a < rangeindex$0 && 0 <= b && b < 3 ==> m[3*b+a] == old(m[3*a+b])
+//@   loop 1 invariant forall a, b :: a == locA && 0 <= b && b <= rangeindex ==> m[3*b+a] == old(m[3*a+b])
